@@ -239,9 +239,9 @@ End Sum.
 (* a closed instance, evaluated: two structures over three variables *)
 Example QSum_example :
   let rs : Qruleset :=
-    {| tbl := [[1#2; 1#4]; [1#3]; [3#5; 1#5]];
-       bases := [ {| bprob := 3#4; brepl := [0%nat; 1%nat] |};
-                  {| bprob := 1#4; brepl := [2%nat; 0%nat; 2%nat] |} ] |} in
+    @Build_ruleset QProb ([[1#2; 1#4]; [1#3]; [3#5; 1#5]] : list (list Q))
+       [ @Build_bstruct QProb (3#4) [0%nat; 1%nat];
+         @Build_bstruct QProb (1#4) [2%nat; 0%nat; 2%nat] ] in
   let sizes := [[1%nat; 2%nat]; [3%nat]; [1%nat; 2%nat]] in
   Qsum (map (fun it : Qitem => iprob it * count_it sizes it) (@all_preterminals QProb rs)) == 1.
 Proof. vm_compute. reflexivity. Qed.
